@@ -11,7 +11,7 @@ MOD = "github.com/mit-pdos/go-nfsd/"
 COMMON_ASSUMPTIONS = [
     "bounded: every result holds only within the bounds listed under coverage.bounds; loops carry unwinding assertions",
     "gosym (this repository's SSA symbolic executor) implements Go semantics for the ~25 SSA instruction kinds used; validated by native replay of witnesses",
-    "z3 4.8.12 answers are trusted; any (error / unknown / timeout makes the check inconclusive, never a pass",
+    "z3 5.1.0 (z3-new) answers are trusted; any (error / unknown / timeout makes the check inconclusive, never a pass",
     "formatting/logging (util.DPrintf, fmt, log) are no-ops; time.Now / NfstimeNow return arbitrary values",
 ]
 
@@ -273,8 +273,18 @@ PROPS["C04"] = {
     "harnesses": _steps("p04", (1, 2, 3), covers_by={2: ("w5-create", "w5-remove"), 3: ("w5-rename",)}, q_by={2: {"pendingshrink": 1}}, t_by={1: {"inums": 1, "pendingshrink": 0, "namelens": 2}, 2: {"inums": 1, "namelens": 2}, 3: {"inums": 1, "pendingshrink": 0, "namelens": 2}}) + [H("nfs.VerifC04Shrink", covers=("end",), q=dict(STEPQ, inums=1, bblocks=2, p04=1, sizeblocks=0), t=dict(STEPQ, inums=1, bblocks=2, p04=1, sizeblocks=0), lmax=3, budget_s=300, budget_s_t=1500)],
 }
 
+PROPS["C02"] = {
+    "level": "model_checking",
+    "explanation": "refinement step against a reference file system through the public procedures only: one mutating request (WRITE, SETATTR; CREATE, MKDIR, SYMLINK, REMOVE, RMDIR, RENAME) executed symbolically from an arbitrary valid state, bracketed by observing requests (GETATTR, READ of a witness byte; LOOKUP of a witness name, READLINK, GETATTR of the handles) whose replies must be what the reference (size + byte per offset; map name -> object) computes from the observation before and the arguments; failure exactly when the reference refuses (or the allocator is exhausted), and then no change",
+    "assumptions": JOURNAL + ["pre-state satisfies Inv (DESIGN.md B.4) incl. I7 at the witness (a present byte at or beyond the size is zero; allocated blocks are zero)", "representative inode/block numbers and offsets (bound R_addr)", "histories: by induction over the step, given C04 (invariant preserved) - argued, not checked", "the eof flag is only required to be sound (eof => nothing follows), not eager"],
+    "outside": ["sequences of more than one mutator (induction over the step)", "restarts (C10: cache = disk, C01 recovery)", "directories beyond K_slots entries, names longer than L_name", "witness offsets other than the representatives", "transfers of more than B_bytes bytes", "READDIR listings (C13 decides them against the directory block)"],
+    "harnesses": [
+        H("nfs.VerifC02Data", covers=("ok", "refused", "written", "kept", "gap", "end"), q=dict(STEPQ, inums=1, zeroalloc=1, offsets=0, wblks=2, preentries=1), t=dict(STEPT, inums=1, zeroalloc=1, offsets=1, wblks=3, pendingshrink=0, preentries=1), lmax=3, budget_s=600, budget_s_t=3000),
+        H("nfs.VerifC02Names", covers=("created", "removed", "renamed", "refused", "end"), q=dict(STEPQ, inums=1, preentries=1), t=dict(STEPT, preentries=1, pendingshrink=0), lmax=3, budget_s=900, budget_s_t=3000),
+    ],
+}
+
 NOT_APPLICABLE = {
-    "C02": "reference-model equivalence needs the relational mutator x observer matrix over two symbolic worlds; designed but not built within reach of this engine's cost (DESIGN.md A.1); parts are decided under C07, C08, C09, C12, C13, C17, C19 and not claimed here",
     "C05": "the on-disk step obligations (dropped block unmarked, block marked by the request pointed to, inode bitmap = live inodes, object that lost its only name freed, DoShrink completes) are decided under C04 and the return of allocations by failed requests under C09; the agreement of the in-memory allocators with the disk bitmaps (the allocator is a contract stub in the step harnesses) and blocks reached through index blocks are not decided, so the property as stated is not claimed (DESIGN.md A.1)",
 }
 
